@@ -67,6 +67,7 @@ pub struct Weights {
     pub acall: u32,
     pub adrop: u32,
     pub reent: u32,
+    pub unwind: u32,
     pub lc_collect_open: u32,
 }
 
@@ -101,6 +102,7 @@ impl Default for Weights {
             acall: 0,
             adrop: 0,
             reent: 0,
+            unwind: 0,
             lc_collect_open: 1,
         }
     }
@@ -138,6 +140,10 @@ pub struct Profile {
     /// per mille per generated operation: a scope on a span that belongs to no trace (created from
     /// an empty or all-noop parent set, or a no-op span) with probes and local operations inside
     pub p_traceless_scope: u32,
+    /// per mille per generated operation: a scope on a span whose parents lie in traces with
+    /// different sampling decisions (either order), with local spans, a thread-safe child of the
+    /// open local span, attachments and context probes inside
+    pub p_mixed_scope: u32,
 }
 
 impl Default for Profile {
@@ -163,6 +169,7 @@ impl Default for Profile {
             probe_scopes: false,
             p_reguard: 60,
             p_traceless_scope: 8,
+            p_mixed_scope: 10,
         }
     }
 }
@@ -347,6 +354,7 @@ impl<'a> Gen<'a> {
             if !adapters.is_empty() { w.adrop } else { 0 },
             if self.depth_call < 2 { w.reent } else { 0 },
             if !nested && self.m().can_collect_open(t) { w.lc_collect_open } else { 0 },
+            if self.depth_call < 2 { w.unwind } else { 0 },
         ];
         if weights.iter().all(|x| *x == 0) {
             return None;
@@ -484,9 +492,39 @@ impl<'a> Gen<'a> {
             }
             26 => Op::ADrop { a: *self.rng.pick(&adapters) },
             27 => return self.gen_reent(t),
+            29 => return self.gen_unwind(t),
             _ => Op::LcCollectOpen,
         };
         Some(op)
+    }
+
+    /// A few operations, then a panic that unwinds through the scopes they left open.
+    fn gen_unwind(&mut self, t: usize) -> Option<Op> {
+        let saved_model = self.prog.model.clone();
+        let saved_floor = self.nested_floor;
+        let saved_ctx_ops = self.ctx_ops.clone();
+        self.prog.model.set_thread(t);
+        self.prog.model.scratch_begin_unwind(t);
+        self.nested_floor = self.prog.model.threads[t].frames.len();
+        self.depth_call += 1;
+        let mut steps = vec![];
+        let k = self.rng.range(2, 7);
+        for _ in 0..k {
+            if let Some(op) = self.gen_op(t, true) {
+                let flat = self.prog.model.apply(t, &op);
+                if matches!(op, Op::FromSpan { .. } | Op::CurLocal) {
+                    self.ctx_ops.push(flat);
+                }
+                steps.push(op);
+            }
+        }
+        self.depth_call -= 1;
+        self.nested_floor = saved_floor;
+        self.prog.model = saved_model;
+        let keep: Vec<usize> = self.ctx_ops.iter().copied().filter(|f| !saved_ctx_ops.contains(f)).collect();
+        self.ctx_ops = saved_ctx_ops;
+        self.pending_ctx = keep;
+        Some(Op::Unwind { steps })
     }
 
     /// A closure-taking operation whose closure itself runs a few operations.
@@ -566,6 +604,8 @@ impl<'a> Gen<'a> {
             (AKind::Sink, AMethod::StartSend) => *self.rng.pick(&[AOutcome::Value, AOutcome::Value, AOutcome::Error]),
             (AKind::Sink, _) => *self.rng.pick(&[AOutcome::Pending, AOutcome::Value, AOutcome::Value, AOutcome::Error]),
         };
+        // now and then the inner object panics instead (only a live adapter; it is done afterwards)
+        let outcome = if !ad.done && self.pf.w.unwind > 0 && self.rng.chance(1, 14) { AOutcome::Panic } else { outcome };
         // Generate the steps against a scratch copy of the model that has the adapter's scope
         // open, exactly as `Model::apply` will replay them.
         let saved_model = self.prog.model.clone();
@@ -595,8 +635,8 @@ impl<'a> Gen<'a> {
                 steps.push(op);
             }
         }
-        // balance the frames opened inside the call
-        while self.prog.model.threads[t].frames.len() > self.nested_floor {
+        // balance the frames opened inside the call (a panicking call leaves them to the unwinding)
+        while outcome != AOutcome::Panic && self.prog.model.threads[t].frames.len() > self.nested_floor {
             self.prog.model.apply(t, &Op::Pop);
             steps.push(Op::Pop);
         }
@@ -618,7 +658,7 @@ impl<'a> Gen<'a> {
         if matches!(op, Op::FromSpan { .. } | Op::CurLocal) {
             self.ctx_ops.push(flat);
         }
-        if matches!(op, Op::ACall { .. } | Op::Reent { .. }) {
+        if matches!(op, Op::ACall { .. } | Op::Reent { .. } | Op::Unwind { .. }) {
             let p = std::mem::take(&mut self.pending_ctx);
             self.ctx_ops.extend(p);
         }
@@ -692,6 +732,46 @@ impl<'a> Gen<'a> {
         self.push(t, Op::Pop);
         if self.rng.chance(1, 2) {
             self.push(t, Op::Pop);
+        }
+    }
+
+    /// A scope on a span with one parent in an unsampled and one in a sampled trace.
+    fn mixed_scope(&mut self, t: usize) {
+        let (u, s) = (new_span_label(), new_span_label());
+        let ut = self.fresh_tid();
+        let st = self.fresh_tid();
+        let up = self.span_id_value();
+        let sp = self.span_id_value();
+        self.push(t, Op::Root { l: u, trace_id: ut, parent: up, sampled: false, np: 0, k0: 0 });
+        self.push(t, Op::Root { l: s, trace_id: st, parent: sp, sampled: true, np: 0, k0: 0 });
+        let m = new_span_label();
+        let mut parents = if self.rng.chance(2, 3) { vec![u, s] } else { vec![s, u] };
+        if self.rng.chance(1, 4) {
+            // a third parent of either kind
+            let alive: Vec<u32> = self.m().alive_spans().into_iter().filter(|x| !self.reserved.contains(x) && *x != u && *x != s).collect();
+            if !alive.is_empty() {
+                parents.push(*self.rng.pick(&alive));
+            }
+        }
+        self.push(t, Op::Child { l: m, parents, single: false, np: 1, k0: new_keys(1) });
+        self.push(t, Op::Guard { span: m });
+        self.push(t, Op::CurLocal);
+        self.push(t, Op::LEnter { l: new_local_label(), np: 1, k0: new_keys(1) });
+        self.push(t, Op::LAddEvent { e: new_event(), np: 0, k0: 0 });
+        let c = new_span_label();
+        self.push(t, Op::ChildLocal { l: c, np: 0, k0: 0 });
+        self.push(t, Op::FromSpan { span: c });
+        self.push(t, Op::LEnter { l: new_local_label(), np: 0, k0: 0 });
+        self.push(t, Op::CurLocal);
+        self.push(t, Op::Pop);
+        self.push(t, Op::Pop);
+        self.push(t, Op::LAddProps { n: 1, k0: new_keys(1) });
+        self.push(t, Op::FromSpan { span: m });
+        self.push(t, Op::Pop);
+        self.push(t, Op::Finish { span: c });
+        // the rest of the program finishes m, u and s in whatever order it likes
+        if self.rng.chance(1, 2) {
+            self.push(t, Op::Finish { span: m });
         }
     }
 
@@ -833,6 +913,10 @@ impl<'a> Gen<'a> {
             let t = self.rng.below(self.prog.nthreads);
             if self.rng.chance(self.pf.p_traceless_scope, 1000) && self.m().threads[t].frames.len() < self.pf.max_depth {
                 self.traceless_scope(t);
+                continue;
+            }
+            if self.rng.chance(self.pf.p_mixed_scope, 1000) && self.m().threads[t].frames.len() + 3 < self.pf.max_depth {
+                self.mixed_scope(t);
                 continue;
             }
             if let Some(op) = self.gen_op(t, false) {
